@@ -15,6 +15,7 @@
  * API only (len, forward and backward iteration, get(i) and get(-i) for every i,
  * mem of every value token; instance serials for Probe elements) plus the ledger.
  */
+#include <alloca.h>
 #include "hc.h"
 
 #define MAXO 8
@@ -33,6 +34,13 @@ static var tup_elem(int tok) {
 }
 static void tup_free_all(void) { for (size_t i = 0; i < tup_n; i++) vt_free(tup_elems[i]); tup_n = 0; }
 
+/* dispose of an element argument after the call */
+static void arg_done(var e, int isT) {
+  if (isT) return;                                 /* Tuples keep the pointer */
+  if (etk == VT_BOX) { if (hc_exc[0]) del(e); return; }   /* handed over to the Box on success */
+  vt_free(e);
+}
+
 static long long clamp32(long long i) { return i > (1LL << 30) ? (1LL << 30) : i < -(1LL << 30) ? -(1LL << 30) : i; }
 
 static void project(struct Slot* so, int o) {
@@ -48,6 +56,7 @@ static void project(struct Slot* so, int o) {
     while (it != Terminal && n < lim) {
       long long tk = vt_token(vt_k, vt_nk, it);
       if (etk == VT_PROBE && so->kind != 3) { ss[nss] = ((struct Probe*)it)->serial; nss++; }
+      if (etk == VT_BOX && so->kind != 3) { struct Probe* pp = ((struct Box*)it)->val; ss[nss] = pp ? pp->serial : -1; nss++; }
       buf[n] = tk; n++;
       it = iter_next(c, it);
     }
@@ -76,7 +85,7 @@ static void project(struct Slot* so, int o) {
   }
   ev_ints("gn", buf, n);
   n = 0;
-  for (int k = 1; k <= vt_nk; k++) {
+  for (int k = 1; k <= vt_nk && etk != VT_BOX; k++) {
     var key = vt_make(vt_k, k);
     volatile long long mm = -1;
     try { mm = mem(c, key) ? 1 : 0; } catch (e) { mm = -1; }
@@ -101,8 +110,8 @@ static void emit(struct Slot* objs, const char* op, int o, int v, long long i, l
                  const char* what, const char* exc, long long r) {
   ev_begin(op);
   ev_int("o", o); ev_int("v", v); ev_int("i", clamp32(i)); ev_int("n", clamp32(n)); ev_int("src", src);
-  ev_str("what", what); ev_str("exc", exc); ev_int("r", r);
-  ev_int("own", etk == VT_PROBE ? 1 : 0);
+  ev_str("what", what); ev_str("exc", exc); ev_str("msg", hc_msg); ev_int("r", r);
+  ev_int("own", (etk == VT_PROBE || etk == VT_BOX) ? 1 : 0);
   ev_int("zero", zero_tok());
   ev_ints("vals", init_vals, n_init); n_init = 0;
   ev_arr_begin("objs");
@@ -136,6 +145,7 @@ int main(int argc, char** argv) {
     if (hc_is(0, "reset")) {
       for (int i = 1; i < MAXO; i++) drop(&objs[i]);
       tup_free_all();
+      if (cur_exec > 0) { ev_begin("end"); ev_ledger(); ev_int("line", cur_line); ev_end(); led_abandon(); }   /* closes the previous execution */
       cur_exec++;
       ev_begin("reset"); ev_ledger(); ev_int("line", cur_line); ev_end();
       continue;
@@ -146,7 +156,7 @@ int main(int argc, char** argv) {
     if (hc_is(0, "new")) {
       int kind = hc_is(2, "Array") ? 1 : hc_is(2, "List") ? 2 : 3;
       int nv = hc_nw - 3;
-      var* args = calloc((size_t)(nv + 3), sizeof(var));
+      var* args = alloca((size_t)(nv + 3) * sizeof(var)); memset(args, 0, (size_t)(nv + 3) * sizeof(var));   /* on the stack: visible to the collector */
       int a = 0;
       if (kind != 3) args[a++] = vt_type(etk);
       for (int i = 0; i < nv; i++) args[a++] = kind == 3 ? tup_elem((int)hc_int(3 + i)) : vt_make(vt_k, (int)hc_int(3 + i));
@@ -155,14 +165,15 @@ int main(int argc, char** argv) {
       var targs = header_init(malloc(sizeof(struct Header) + sizeof(struct Tuple)), Tuple, AllocStack);
       memcpy(targs, &tup, sizeof tup);
       volatile var made = NULL;
-      HC_TRY(made = new_raw_with(kind_type(kind), targs));
-      so->obj = made; so->kind = kind; so->managed = 0;
-      if (kind != 3) for (int i = 0; i < nv; i++) vt_free(args[1 + i]);
-      free((char*)targs - sizeof(struct Header)); free(args);
-      ev_begin("new"); ev_int("o", o); ev_str("what", kind_name(kind)); ev_str("exc", hc_exc);
+      if (etk == VT_BOX) HC_TRY(made = new_with(kind_type(kind), targs));
+      else HC_TRY(made = new_raw_with(kind_type(kind), targs));
+      so->obj = made; so->kind = kind; so->managed = (etk == VT_BOX);
+      if (kind != 3 && etk != VT_BOX) for (int i = 0; i < nv; i++) vt_free(args[1 + i]);
+      free((char*)targs - sizeof(struct Header));
+      ev_begin("new"); ev_int("o", o); ev_str("what", kind_name(kind)); ev_str("exc", hc_exc); ev_str("msg", hc_msg);
       for (int i = 0; i < nv; i++) init_vals[i] = hc_int(3 + i);
       ev_ints("init", init_vals, (size_t)nv);
-      ev_int("own", etk == VT_PROBE ? 1 : 0);
+      ev_int("own", (etk == VT_PROBE || etk == VT_BOX) ? 1 : 0);
       ev_arr_begin("objs");
       for (int k = 1; k < MAXO; k++) if (objs[k].obj) project(&objs[k], k);
       ev_arr_end();
@@ -176,7 +187,7 @@ int main(int argc, char** argv) {
       int v = (int)hc_int(2);
       var e = isT ? tup_elem(v) : vt_make(vt_k, v);
       if (hc_is(0, "push")) HC_TRY(push(c, e)); else HC_TRY(append(c, e));
-      if (!isT) vt_free(e);
+      arg_done(e, isT);
       emit(objs, op, o, v, 0, 0, 0, "", hc_exc, 0);
     } else if (hc_is(0, "pop")) {
       HC_TRY(pop(c));
@@ -185,7 +196,7 @@ int main(int argc, char** argv) {
       int v = (int)hc_int(2); long long i = hc_int(3);
       var e = isT ? tup_elem(v) : vt_make(vt_k, v);
       HC_TRY(push_at(c, e, $I(i)));
-      if (!isT) vt_free(e);
+      arg_done(e, isT);
       emit(objs, "pushat", o, v, i, 0, 0, "", hc_exc, 0);
     } else if (hc_is(0, "popat")) {
       long long i = hc_int(2);
@@ -222,7 +233,7 @@ int main(int argc, char** argv) {
     } else if (hc_is(0, "concatv")) {
       /* concat with a temporary sequence of the same kind built from fresh element objects */
       int nv = hc_nw - 2;
-      var* args = calloc((size_t)(nv + 3), sizeof(var));
+      var* args = alloca((size_t)(nv + 3) * sizeof(var)); memset(args, 0, (size_t)(nv + 3) * sizeof(var));   /* on the stack: visible to the collector */
       int a = 0;
       if (!isT) args[a++] = vt_type(etk);
       for (int i = 0; i < nv; i++) { init_vals[i] = hc_int(2 + i); args[a++] = isT ? tup_elem((int)hc_int(2 + i)) : vt_make(vt_k, (int)hc_int(2 + i)); }
@@ -232,7 +243,7 @@ int main(int argc, char** argv) {
       memcpy(targs, &tup, sizeof tup);
       var tmp = new_raw_with(kind_type(so->kind), targs);
       if (!isT) for (int i = 0; i < nv; i++) vt_free(args[1 + i]);
-      free((char*)targs - sizeof(struct Header)); free(args);
+      free((char*)targs - sizeof(struct Header));
       HC_TRY(concat(c, tmp));
       del_raw(tmp);
       n_init = (size_t)nv;
@@ -288,6 +299,9 @@ int main(int argc, char** argv) {
       else if (!strcmp(what, "set_alien"))  { HC_TRY(set(c, $I(0), alien)); }
       else if (!strcmp(what, "push_null"))  { HC_TRY(push(c, NULL)); }
       else if (!strcmp(what, "push_alien")) { HC_TRY(push(c, alien)); }
+      else if (!strcmp(what, "pushat_null")) { HC_TRY(push_at(c, NULL, $I(0))); }
+      else if (!strcmp(what, "pushat_alien")) { HC_TRY(push_at(c, alien, $I(0))); }
+      else if (!strcmp(what, "concat_alien")) { var tl = new_raw(List, Table); resize(tl, 0); var a2 = new_raw(Table, Int, Int); push(tl, a2); HC_TRY(concat(c, tl)); del_raw(tl); del_raw(a2); }
       else if (!strcmp(what, "rem_null"))   { HC_TRY(rem(c, NULL)); }
       else if (!strcmp(what, "mem_null"))   { HC_TRY(mem(c, NULL)); }
       else if (!strcmp(what, "concat_null")) { HC_TRY(concat(c, NULL)); }
